@@ -84,7 +84,7 @@ def _ord(fa, n):
     return "%d/%d" % (same.index(n) + 1, len(same))
 
 
-R3_FNS = [APPEND_BATCH, CLEAR, VAP, MAKE_RO, FLUSH_ALL, FLUSH_INFOS, READ_INFOS_VEC, READ_INFO, READ_INFOS, FLUSH_INFO, GET, BYTE_RANGE_CORE, CVP_CORE, VERIFY_PROOF_CORE, MISSING_NODES_CORE, NEW]
+R3_FNS = [APPEND_BATCH, CLEAR, VAP, MAKE_RO, CREATE_PROOF, FLUSH_ALL, FLUSH_INFOS, READ_INFOS_VEC, READ_INFO, READ_INFOS, FLUSH_INFO, GET, BYTE_RANGE_CORE, CVP_CORE, VERIFY_PROOF_CORE, MISSING_NODES_CORE, NEW]
 
 
 # (function, callee): the one reviewed place where a storage error is not a failure
@@ -114,7 +114,17 @@ def r3(ctx, prop=P, rule="C10.R3"):
     S, _ = storage_set(ctx)
     commit_callees = (BF_UPDATE, BF_SET_RANGE, UCL, MT_COMMIT, EVENTS_SEND, MT_ADD_NODE)
     n = n0 = 0
-    for fname in R3_FNS:
+    # the anchored entry points, plus every other function of the crate that calls something from
+    # which a storage operation is reachable (so that a new caller, or one the list forgot — as it
+    # once forgot create_proof — is held to the same discipline)
+    callers = set()
+    for fx in ctx.all_fas():
+        nm_ = fn_of(fx.body.name)
+        if "::tests::" in nm_ or nm_.startswith("tests::"):
+            continue
+        if any(t_.get("callee") in RA_ALL or callee_of(t_) in S for _, t_ in fx.calls()):
+            callers.add(nm_)
+    for fname in list(R3_FNS) + sorted(callers - set(R3_FNS)):
         bodies = ctx.crate.group(fname)
         if not bodies:
             ctx.missing(prop, rule, fname, "function not found")
